@@ -188,7 +188,9 @@ Theorem C04_known_classes_refute :
   refutes (fst w_chkscope) (snd w_chkscope) known_C04_check_name_scope /\
   refutes (fst w_keyfk) (snd w_keyfk) known_C04_key_needed_by_fk /\
   refutes (fst w_allcols) (snd w_allcols) known_C04_last_column_drop /\
-  refutes (fst w_autoadd) (snd w_autoadd) known_C04_autoinc_not_added.
+  refutes (fst w_autoadd) (snd w_autoadd) known_C04_autoinc_not_added /\
+  refutes (fst w_refname) (snd w_refname) known_C04_fk_lost_by_ref_name /\
+  refutes (fst w_reflater) (snd w_reflater) known_C04_reference_added_later.
 Proof.
   repeat split; vm_compute; reflexivity.
 Qed.
@@ -206,7 +208,9 @@ Check C04_known_classes_refute :
   refutes (fst w_chkscope) (snd w_chkscope) known_C04_check_name_scope /\
   refutes (fst w_keyfk) (snd w_keyfk) known_C04_key_needed_by_fk /\
   refutes (fst w_allcols) (snd w_allcols) known_C04_last_column_drop /\
-  refutes (fst w_autoadd) (snd w_autoadd) known_C04_autoinc_not_added.
+  refutes (fst w_autoadd) (snd w_autoadd) known_C04_autoinc_not_added /\
+  refutes (fst w_refname) (snd w_refname) known_C04_fk_lost_by_ref_name /\
+  refutes (fst w_reflater) (snd w_reflater) known_C04_reference_added_later.
 
 (* D18 on MySQL: the shrunk key keeps its name, the baseline derives another one *)
 Theorem C04_composite_member_name_drift :
